@@ -8,7 +8,7 @@ from harness import sched as S
 from harness.core import Prop, E
 from harness.props.poolprops import optn
 
-EV = dict(Start=0, Next=1, Put=2, Try=3, Empty=4, Get=5, End=6, Nonee=7, Join=8, WTake=9, WRes=10)
+EV = dict(Start=0, Next=1, Put=2, Try=3, Empty=4, Get=5, End=6, Nonee=7, Join=8, WTake=9, WRes=10, WExit=11)
 POLICIES = ["random", "random", "first:main", "last:main", "first:c", "last:c", "last:w0", "last:w1", "first:w1"]
 
 
@@ -141,6 +141,8 @@ def to_events(log, kind):
                 ev.append([EV["WTake"], k])
             elif op == "put" and a[0] == "results":
                 ev.append([EV["WRes"], k])
+            elif op == "proc_exit":
+                ev.append([EV["WExit"], k])
     return ev
 
 
@@ -152,7 +154,7 @@ class P(Prop):
     thorough_n = 12000
     trusted = ["controlled scheduler + fake queues (harness/sched.py): queue operations atomic, FIFO; a process as a thread",
                "module-level rebinding of Queue / FunRunner queues / Process.start, join inside the sandboxed child"]
-    assumptions = ["a worker process cannot exit while more than `pipe` of the results it has put are unread (bounded pipe behind multiprocessing.Queue): exercised on the implementation side only, the Coq model has no pipe",
+    assumptions = ["a worker process cannot exit while more than `pipe` results are waiting to be read (bounded pipe behind multiprocessing.Queue; one shared bound, not one per process): the same condition guards the exit event of the Coq model (m_pipe) and the exit point of the logical process in the scheduler",
                    "multiprocessing.Queue is FIFO per producer and the work queue is bounded as constructed; a non-blocking get may miss an item in transit (modelled, exercised by the 'flaky' cases)",
                    "the mapped function returns normally",
                    "worker processes share nothing with the parent but the two queues"]
@@ -160,7 +162,7 @@ class P(Prop):
             "shorter than the worker count, chunk sizes 1-3) x scheduling policy and seed x probability of spurious Empty.  VIOLATION when a "
             "call does not return exactly [f(x) for x in data] in order, the run deadlocks (no enabled thread) or the main thread raises.  "
             "CORRESPONDENCE: the extracted Coq model accepts the whole event trace and ends in MmDone with the same results, empty queues and "
-            "all workers dead.")
+            "all worker processes exited (the exit of a process is an event of its own, enabled only while the pipe bound allows it).")
 
     def gen_case(self, rng):
         kind = "map" if rng.random() < 0.6 else "mul"
@@ -202,7 +204,7 @@ class P(Prop):
 
     def to_model2(self, case, o):
         evs = o["events"] if isinstance(o, dict) and "events" in o else []
-        cfg = [case["workers"], optn(case["cap"]), 1 if case["kind"] == "map" else 0]
+        cfg = [case["workers"], optn(case["cap"]), 1 if case["kind"] == "map" else 0, optn(case.get("pipe"))]
         return 500, [cfg, [[d, c] for d, c in case["hist"]], evs]
 
     def expected(self, case):
